@@ -12,11 +12,12 @@
 from __future__ import annotations
 
 import ast
+import re
 
 from .. import flow
-from ..astutil import polarity_atoms, body_walk, call_name, call_recv, calls_in, names_in, norm, strip_await, walk_no_nested
+from ..astutil import polarity_atoms, body_walk, call_name, call_recv, calls_in, fstring_parts, merge_consts, names_in, norm, strip_await, walk_no_nested
 from ..cfg import is_log_call
-from .common import parmap, where
+from .common import is_push_call, parmap, where
 
 PROP = "C17"
 EXPLANATION = (
@@ -609,6 +610,41 @@ def r17_13(ctx):
         ctx.ok("R17.13", where(fi), "shutdown() is reached only on the arm that removes the folder; the \\Noselect placeholder keeps its management task")
 
 
+def r17_14(ctx):
+    """LIST and LSUB share do_list(); what tells them apart is the parameter `lsub`.  An untagged response that names its
+    command in constant text - `* LIST ...` / `* LSUB ...` - is pushed only on paths where `lsub` has the matching value
+    (or the name is computed from it).  The delimiter probe (`"" ""`) answered `* LIST` for both."""
+    p = ctx.p
+    fi = p.func("client.Authenticated.do_list")
+    ctx.analysed(fi)
+    ctx.require("lsub" in [a.arg for a in fi.node.args.args], "do_list(): parameter `lsub` vanished", anchor=True)
+    g = ctx.cfg(fi)
+
+    def classify(e):
+        return "lsub" if isinstance(e, ast.Name) and e.id == "lsub" else None
+
+    n = 0
+    for nd in g.nodes:
+        if nd.ast is None or nd.kind != "stmt":
+            continue
+        for c in [nd.ast]:
+            for a in [x for x in ast.walk(nd.ast) if isinstance(x, (ast.JoinedStr, ast.Constant)) and not any(isinstance(y, ast.JoinedStr) and x is not y and any(x is z for z in ast.walk(y)) for y in ast.walk(nd.ast))]:
+                parts = merge_consts(fstring_parts(a) or [])
+                head = parts[0] if parts and isinstance(parts[0], str) else ""
+                m = re.match(r"\* (LIST|LSUB)\b", head)
+                if not m:
+                    continue
+                n += 1
+                wrong = m.group(1) == "LIST"  # text LIST must not be reachable with lsub true, and vice versa
+                hit = flow.feasible_paths_exist(g, g.entry, {nd.id}, classify, labels=flow.NORMAL, accept=lambda _n, facts, w=wrong: facts.get("lsub") is not (not w))
+                ctx.paths_explored += 1
+                if hit:
+                    ctx.bad("R17.14", fi.module, fi.qual, norm(a, 70), f"`* {m.group(1)} ...` is pushed on a path where `lsub` is not known to be {not wrong}: the other command of the pair is answered under the wrong name", a.lineno, flow.fmt_path(g, hit[0]))
+                else:
+                    ctx.ok("R17.14", where(fi), f"`* {m.group(1)}` only where lsub is {not wrong}")
+    ctx.floor("R17.14", n, 1, "untagged LIST/LSUB lines with the name in constant text")
+
+
 def run(ctx):
     ctx.do(r17_8)
     ctx.do(r17_9)
@@ -623,6 +659,7 @@ def run(ctx):
     ctx.do(c05.r5_5)
     ctx.do(r17_12)
     ctx.do(r17_13)
+    ctx.do(r17_14)
     from . import c08 as _c08
     ctx.do(_c08.r8_3)  # the inbox and what lies below it are recognised in every spelling
     from . import c12 as _c12
